@@ -88,6 +88,27 @@ Definition conclude (dom : bool) (oracle corr : option string) (nontrivial : boo
             end
   end.
 
+(** the index state (per branch: bitset, tip counts, hash code; per tip: its id) of the twin of
+    an edited tree, as read by the worker right after the copy and again after the edit; and
+    whether it is the index of the twin's own tree (every branch SameBipartition as the branch
+    of an independently built and indexed copy of its dump): "T", "F" or "NA" (no index) *)
+Definition index_oracle (indexed : bool) (o : sexp) : option string :=
+  match get_string "ix_orig" o, get_string "ix_orig_after" o, get_string "ix_orig_ok" o,
+        get_string "ix_copy2" o, get_string "ix_copy_after" o, get_string "ix_copy_ok" o,
+        get_string "ix_copy0_ok" o with
+  | Some io, Some ioa, Some ook, Some ic, Some ica, Some cok, Some c0ok =>
+    first_some
+      [(if String.eqb io ioa then None
+        else Some ("editing the copy changed the original's index (bitsets, tip counts, hash codes or tip ids): " ++ ioa ++ " / before: " ++ io));
+       (if String.eqb ook "F" then Some "after editing the copy the original's index is not the index of its tree" else None);
+       (if indexed && negb (String.eqb ook "T") then Some "the indexed original has no complete index after editing the copy" else None);
+       (if String.eqb c0ok "F" then Some "the copy's index is not the index of its tree" else None);
+       (if String.eqb ic ica then None
+        else Some ("editing the original changed the copy's index (bitsets, tip counts, hash codes or tip ids): " ++ ica ++ " / before: " ++ ic));
+       (if String.eqb cok "F" then Some "after editing the original the copy's index is not the index of its tree" else None)]
+  | _, _, _, _, _, _, _ => Some "no index state in the observation"
+  end.
+
 (** ** clone / subtree *)
 Definition judge_copy (is_clone : bool) (c o : sexp) : verdict :=
   match get_tree "tree" c with
@@ -132,7 +153,8 @@ Definition judge_copy (is_clone : bool) (c o : sexp) : verdict :=
                  (if utree_eqb g ca then None
                   else Some ("editing the original changed the copy: " ++ show_utree ca));
                  (if String.eqb nwc nwca then None
-                  else Some ("editing the original changed the copy's text: " ++ nwca))] in
+                  else Some ("editing the original changed the copy's text: " ++ nwca));
+                 index_oracle (match get_bool "reinit" c with Some b => b | None => false end) o] in
           conclude dom oracle corr changed (if is_clone then "clone" else "subtree")
         | _, _, _, _, _ => VBad "undecodable observation (texts)"
         end
